@@ -15,7 +15,7 @@ RULE = ('(a) two engines, generator level: every ordered pair of actor scripts f
         'infinite enumeration) suspended simultaneously x ALL merge orders of their next() steps (pairs: 4 each, thorough 5; triples: 2 each, thorough 3), including queries over dynamic facts that contain variables; '
         '(c) two real threads, each with its own engine (assert two facts, enumerate a conjunction, use findall and, in a 4th body, assert and use facts that contain variables, one of them twice; '
         'retract), under a baton scheduler that makes every traced source line of yldprolog and of the loaded script a '
-        'scheduling point: every schedule with <= 1 preemption [thorough: <= 2 for the conjunction body]. Oracle, without hand-written '
+        'scheduling point: every schedule with <= 1 preemption [thorough: <= 2 for the conjunction body]. (d) a fault in one engine: in a process that has never resolved a call, engine A runs each of 4 queries under every recursion limit 6..69 (the limit strikes at every depth of the first resolution of every predicate), then a NEW engine B must answer all queries completely. Oracle, without hand-written '
         'expectations: the observation log of each actor / query / thread equals the log of the same script run alone. '
         'The first schedule is executed twice and must reproduce. states = distinct observation logs; transitions = '
         'actor steps resp. scheduling points executed; non-trivial = steps of different actors actually alternate')
@@ -327,6 +327,80 @@ import os as _os  # noqa: E402
 os_sep = _os.sep
 
 
+# ---------------------------------------------------------------- (d) a fault in one engine
+# Engine A runs a query under a recursion limit that strikes at EVERY depth of its first resolution
+# of each predicate (the process has never resolved anything before: each case runs in a child forked
+# from a zygote that has only imported the package and compiled the program); afterwards a new engine B
+# with the same program must answer every query completely.
+FAULT_PROGRAM = [(F('leaf', A('l1')), TRUE), (F('leaf', A('l2')), TRUE),
+                 (F('walk', X), conj(call(F('leaf', X)), call(F('hop', X, Y)), call(F('leaf', Y)))),
+                 (F('hop', A('l1'), A('l2')), TRUE), (F('hop', A('l2'), A('l1')), TRUE),
+                 (F('deep', A('z')), TRUE), (F('deep', F('s', X)), call(F('deep', X)))]
+FAULT_QUERIES = [('walk', 1), ('leaf', 1), ('hop', 2), ('deep', 1)]
+FAULT_ZYGOTE = r'''
+import sys, json
+sys.path.insert(0, %(verif)r)
+from mc import impl
+from mc.checks import c04
+from mc.runner import in_child
+pytext = impl.compile_text(c04.show_program(c04.FAULT_PROGRAM))
+jobs = json.load(sys.stdin)
+json.dump([in_child(c04.fault_case, pytext, q, lim, quiet=True) for q, lim in jobs], sys.stdout)
+'''
+
+
+def fault_case(pytext, qi, limit):
+    """in a process that has never resolved a call: engine A under the limit, then engine B freely"""
+    import sys
+    name, n = FAULT_QUERIES[qi]
+    a = impl.YP()
+    a.load_script_from_string(pytext, fn=impl.SCRIPT_FN)
+    vs = [a.variable() for _ in range(n)]
+    res = a.evaluate_bounded(a.query(name, vs), lambda x: 1, limit)
+    sys.setrecursionlimit(1000)
+    b = impl.YP()
+    b.load_script_from_string(pytext, fn=impl.SCRIPT_FN)
+    out = []
+    for qn, k in FAULT_QUERIES:
+        ws = [b.variable() for _ in range(k)]
+        cnt = 0
+        try:
+            for _ in b.query(qn, ws):
+                cnt += 1
+                if cnt >= 8:
+                    break
+        except Exception as e:  # noqa: BLE001
+            cnt = 'raised %s' % type(e).__name__
+        out.append(cnt)
+    return (len(res), out)
+
+
+def run_faults(spec, acc):
+    import json
+    import subprocess
+    import sys
+    from ..runner import VERIF
+    _, k, n = spec
+    jobs = [(qi, lim) for lim in range(6, 70) for qi in range(len(FAULT_QUERIES))]
+    jobs = [j for i, j in enumerate(jobs) if i % n == k]
+    p = subprocess.run([sys.executable, '-c', FAULT_ZYGOTE % {'verif': VERIF}], input=json.dumps(jobs), capture_output=True, text=True, timeout=3000)
+    if p.returncode != 0:
+        raise RuntimeError('fault zygote failed: %s' % p.stderr[-2000:])
+    want = [2, 2, 2, 8]
+    for (qi, lim), r in zip(jobs, json.loads(p.stdout)):
+        acc.n['evaluations'] += 1
+        acc.n['validated'] += 1
+        acc.n['transitions'] += 1 + len(FAULT_QUERIES)
+        if r[1] != want:
+            acc.violation('fault-in-one-engine-changes-another', (3, qi, lim), {'kind': 'd', 'query': qi, 'limit': lim},
+                          'engine A: evaluate_bounded(%s/%d, recursion_limit=%d) (%d answers) as the first thing this process ever resolved; then a NEW engine B with the same program answers %s for %s (expected %s)\nprogram:\n%s'
+                          % (FAULT_QUERIES[qi][0], FAULT_QUERIES[qi][1], lim, r[0], r[1], [q for q, _ in FAULT_QUERIES], want, show_program(FAULT_PROGRAM)),
+                          key='fault|%d|%d' % (qi, lim))
+        else:
+            acc.n['nontrivial'] += 1
+            acc.outcome(('fault', qi, r[0]))
+
+
 # ---------------------------------------------------------------- plan / run
 def plan(tier):
     sh = [('a', k, 32) for k in range(32)] + [('b2', k, 32, 4 if tier == 'quick' else 5) for k in range(32)] + [('b3', k, 16, 2 if tier == 'quick' else 3) for k in range(16)]
@@ -337,10 +411,15 @@ def plan(tier):
         # sharded by the thread that starts (choice 0) and by the position of the first later deviation
         nshard = 8 if bound == 1 else 64
         sh += [('c', variant, bound, (start, k), nshard) for start in (0, 1) for k in range(nshard)]
+    sh += [('d', k, 4) for k in range(4)]
     return sh
 
 
 def run_shard(spec):
+    if spec[0] == 'd':
+        acc = Acc()
+        run_faults(spec, acc)
+        return acc
     if spec[0] == 'c':
         # real threads: a schedule that deadlocks leaves blocked threads and held locks behind
         return in_child(_run_shard, spec)
@@ -531,6 +610,15 @@ def expand(pairs, n=None):
 
 
 def replay(case):
+    if case['kind'] == 'd':
+        acc = Acc()
+        import json
+        import subprocess
+        import sys
+        from ..runner import VERIF
+        p = subprocess.run([sys.executable, '-c', FAULT_ZYGOTE % {'verif': VERIF}], input=json.dumps([(case['query'], case['limit'])]), capture_output=True, text=True, timeout=600)
+        r = json.loads(p.stdout)[0]
+        return [] if r[1] == [2, 2, 2, 8] else [('fault-in-one-engine-changes-another', 'engine B answers %s' % (r[1],))]
     if case['kind'] == 'a':
         texts = {nm: impl.compile_text(show_program(cl)) for nm, cl in SCRIPTS.items()}
         s1, s2 = MENU[case['s1']], MENU[case['s2']]
